@@ -37,10 +37,23 @@ def split_events(ctx):
               # the same key again later in the blob (same half, other half), with another key in between
               ['Apub', 'Bpub', 'Asec'], ['Asec', 'Bpub', 'Apub'], ['Apub', 'Bpub', 'Apub'], ['Bpub', 'Apub', 'Cpub', 'Asec'], ['Csec', 'Apub', 'Cpub']]
     for names in combos:
-        for armor in (False, True):
+        for armor in (False, True, 'blocks'):
             blob = b''.join(pool[n] for n in names)
             data = blob
-            if armor:
+            if armor == 'blocks':
+                # every key in an armor block of its own, the blocks one after the other in one text (cat alice.asc bob.asc)
+                if len(names) < 2:
+                    continue
+                import base64
+                from pgpy.types import Armorable
+                parts = []
+                for n_ in names:
+                    label = 'PRIVATE KEY BLOCK' if build.read_packets(pool[n_])[0][0] == 5 else 'PUBLIC KEY BLOCK'
+                    b64 = base64.b64encode(pool[n_]).decode()
+                    crc = base64.b64encode(Armorable.crc24(pool[n_]).to_bytes(3, 'big')).decode()
+                    parts.append('-----BEGIN PGP %s-----\nComment: %s\n\n%s\n=%s\n-----END PGP %s-----\n' % (label, n_, '\n'.join(b64[i:i + 64] for i in range(0, len(b64), 64)), crc, label))
+                data = '\n'.join(parts)
+            elif armor:
                 if len({n[-3:] for n in names}) > 1 or any(n.startswith('F') for n in names):
                     continue
                 first = pgpy.PGPKey.from_blob(pool[names[0]])[0]
@@ -50,7 +63,7 @@ def split_events(ctx):
                 b64 = base64.b64encode(blob).decode()
                 crc = base64.b64encode(Armorable.crc24(blob).to_bytes(3, 'big')).decode()
                 data = '-----BEGIN PGP %s-----\n\n%s\n=%s\n-----END PGP %s-----\n' % (label, '\n'.join(b64[i:i + 64] for i in range(0, len(b64), 64)), crc, label)
-            e = {'k': 'split', 'label': '+'.join(names) + (' armored' if armor else ''), 'blob': octets(blob)}
+            e = {'k': 'split', 'label': '+'.join(names) + (' armored blocks one after the other' if armor == 'blocks' else ' armored' if armor else ''), 'blob': octets(blob)}
             # claims about the primaries in the blob (preimages rechecked by TLC)
             prim, counts = [], []
             for tag, body, raw in build.read_packets(blob):
